@@ -42,6 +42,8 @@ Section Helpers.
 Variable strip : bytes -> bytes.                      (* str.strip(DQUOTE) *)
 Variable has_comma : bytes -> bool.                   (* COMMA in str *)
 Variable tolist : bool -> bytes -> list bytes.        (* tools.to_list(str, unquote) *)
+Variable is_bracket : bytes -> bool.                  (* str.startswith(bracket) *)
+Variable is_digits : bytes -> bool.                   (* str.isdigit() *)
 
 (* str methods applied to an argument value: a list or a Command object has none of them *)
 Definition v_str (v : aval) : rres bytes := match v with VStr s => ROk s | _ => RCrash end.
@@ -63,7 +65,7 @@ Definition v_text (v : aval) : rres bytes :=
 
 (* value.startswith(bracket) ? tools.to_list(value) : [value.strip(DQUOTE)] *)
 Definition list_or_one (s : bytes) : list bytes :=
-  if starts_with [91] s then tolist true s else [strip s].
+  if is_bracket s then tolist true s else [strip s].
 
 Definition arg (n : node) (name : bytes) : rres aval :=
   match assoc_get name (node_args n) with Some v => ROk v | None => RCrash end.   (* KeyError *)
@@ -82,15 +84,13 @@ Definition header_tuple (n : node) : rres rtuple :=
   rdo r3 <- (if c2 then rdo s <- v_str kl; ROk (tolist false s) else rdo s <- v_str kl; ROk [strip s]);
   ROk (map RS r1 ++ [mts] ++ map RS r3).
 
-Definition all_digits (s : bytes) : bool := match s with [] => false | _ => forallb is_digit s end.
-
 (* SizeCommand.args_as_tuple: an int limit stays an int, a str of digits becomes one *)
 Definition size_tuple (n : node) : rres rtuple :=
   rdo lim <- arg n a_limit;
   rdo cmp <- arg n a_comparator;
   rdo c <- v_str cmp;
   match lim with
-  | VStr d => ROk [RS k_size; RS c; if all_digits d then RI d else RS d]
+  | VStr d => ROk [RS k_size; RS c; if is_digits d then RI d else RS d]
   | VList l => ROk [RS k_size; RS c; RL l]
   | _ => RCrash
   end.
@@ -99,7 +99,7 @@ Definition size_tuple (n : node) : rres rtuple :=
 Definition exists_tuple (n : node) : rres rtuple :=
   rdo v <- arg n a_header_names;
   rdo s <- v_text v;
-  if starts_with [91] s then ROk (RS k_exists :: map RS (tolist true s)) else ROk [RS k_exists; RS (strip s)].
+  if is_bracket s then ROk (RS k_exists :: map RS (tolist true s)) else ROk [RS k_exists; RS (strip s)].
 
 (* EnvelopeCommand.args_as_tuple *)
 Definition envelope_tuple (n : node) : rres rtuple :=
@@ -256,7 +256,10 @@ Definition std_has_comma (s : bytes) : bool := contains_byte 44 s.
 Definition std_tolist (unquote : bool) (s : bytes) : list bytes :=
   if unquote then to_list s else split_comma (drop_ends s).
 
-Definition std_get_conditions := get_conditions strip_dq std_has_comma std_tolist.
+Definition std_is_bracket (s : bytes) : bool := starts_with [91] s.
+Definition all_digits (s : bytes) : bool := match s with [] => false | _ => forallb is_digit s end.
+
+Definition std_get_conditions := get_conditions strip_dq std_has_comma std_tolist std_is_bracket all_digits.
 Definition std_get_actions := get_actions strip_dq std_has_comma std_tolist.
 
 (* FiltersSet.getfilter on the sets of Build.v: the tree of the named filter, the wrapped one when disabled *)
